@@ -360,3 +360,115 @@ func VerifLaneIndependence() {
 	}
 	verif.Observe(r1.wf.VCC())
 }
+
+// ---------------- C03: the two ALU implementations against each other ----------------
+
+func zzvEncodeScalar(row *insts.InstType, cdna bool) *insts.Inst {
+	v := map[string]uint64{}
+	switch row.Format.FormatType {
+	case insts.SOP2:
+		v["ssrc0"], v["ssrc1"], v["sdst"] = 4, 8, 16
+	case insts.SOP1:
+		v["ssrc0"], v["sdst"] = 4, 16
+	case insts.SOPC:
+		v["ssrc0"], v["ssrc1"] = 4, 8
+	case insts.SOPK:
+		v["sdst"] = 16
+	}
+	word := insts.ZzvEncode(row, v)
+	if row.Format.FormatType == insts.SOPK {
+		// symbolic 16-bit immediate
+		imm := verif.U16()
+		word[0], word[1] = byte(imm), byte(imm>>8)
+	}
+	inst, err := insts.ZzvDecode(word, cdna)
+	if err != nil {
+		return nil
+	}
+	return inst
+}
+
+// zzvSameState compares the complete architectural state of two runs.
+func zzvSameState(x, y *zzvRun, lanes []int) bool {
+	same := true
+	for i := range x.wf.SRegFile {
+		same = verif.And(same, x.wf.SRegFile[i] == y.wf.SRegFile[i])
+	}
+	for _, l := range lanes {
+		for i := 0; i < 4*zzvRTop; i++ {
+			same = verif.And(same, x.wf.VRegFile[l*1024+i] == y.wf.VRegFile[l*1024+i])
+		}
+	}
+	same = verif.And(same, verif.And(x.wf.VCC() == y.wf.VCC(), x.wf.EXEC() == y.wf.EXEC()))
+	same = verif.And(same, verif.And(x.wf.SCC() == y.wf.SCC(), x.wf.PC() == y.wf.PC()))
+	same = verif.And(same, x.wf.M0 == y.wf.M0)
+	for i := range x.lds {
+		same = verif.And(same, x.lds[i] == y.lds[i])
+	}
+	if len(x.mem.data) != len(y.mem.data) {
+		return false
+	}
+	for a, v := range x.mem.data {
+		w, ok := y.mem.data[a]
+		if !ok {
+			return false
+		}
+		same = verif.And(same, v == w)
+	}
+	return same
+}
+
+// VerifALUAgree (C03, "both implementations obey the same specification"):
+// for every decode-table row that both ALUs implement, executing it from the
+// same arbitrary state leaves the same complete architectural state.
+func VerifALUAgree() {
+	vector := verif.Choice(2) == 0
+	rows := zzvSRows
+	if vector {
+		rows = zzvVRows
+	}
+	stride := verif.Param("rowStride", 1)
+	n := (len(rows) + stride - 1) / stride
+	row := rows[verif.Choice(n)*stride]
+	var ig, ic *insts.Inst
+	if vector {
+		ig, ic = zzvEncodeVector(row, false), zzvEncodeVector(row, true)
+	} else {
+		ig, ic = zzvEncodeScalar(row, false), zzvEncodeScalar(row, true)
+	}
+	if ig == nil || ic == nil {
+		return
+	}
+	a, b := 3, 36
+	la, lb := zzvNewLane(0x10), zzvNewLane(0x40)
+	sregs := verif.Bytes(4 * 102)
+	vcc, exec, scc, m0, pc := verif.U64(), verif.U64(), verif.U8(), verif.U32(), verif.U64()
+	init := map[uint64]uint8{}
+	fill := func(wf *emu.Wavefront, lds []byte) {
+		copy(wf.SRegFile, sregs)
+		copy(wf.VRegFile[a*1024:], la.regs)
+		copy(wf.VRegFile[b*1024:], lb.regs)
+		if vector {
+			wf.SetEXEC(zzvBit(la.exec, a) | zzvBit(lb.exec, b))
+		} else {
+			wf.SetEXEC(exec)
+		}
+		wf.SetVCC(vcc)
+		wf.SetSCC(scc & 1)
+		wf.M0 = m0
+		wf.SetPC(pc)
+		for i := range lds {
+			lds[i] = 0
+		}
+	}
+	tag := row.Format.FormatName + "." + row.InstName
+	rg := zzvExec(true, ig, init, fill)
+	rc := zzvExec(false, ic, init, fill)
+	verif.Assert(rg.fault == "" && rc.fault == "", "memory fault while executing "+tag)
+	if rg.notImplemented || rc.notImplemented || rg.fault != "" || rc.fault != "" {
+		verif.Cover("not implemented in at least one ALU")
+		return
+	}
+	verif.Cover("both implement")
+	verif.Assert(zzvSameState(rg, rc, []int{a, b}), "the GCN3 and CDNA3 ALUs leave different states for "+tag)
+}
